@@ -39,6 +39,8 @@ Step ==
   /\ CASE E.ev = "Init" ->
             /\ items' = E.items /\ rowStart' = E.rowStart /\ taint' = E.taint /\ pos' = 0 /\ bad' = bad
             /\ cnt' = [cnt EXCEPT !.traces = @ + 1]
+       [] E.ev = "Fatal" ->   \* the process died inside the library (a panic in a goroutine of its own)
+            /\ UNCHANGED <<items, rowStart, taint>> /\ pos' = -1 /\ Flag("fatal")
        [] E.ev = "Seek" ->
             /\ UNCHANGED <<items, rowStart, taint>>
             /\ IF E.panic = 1 THEN pos' = -1 /\ Flag("panic")
